@@ -14,13 +14,14 @@ from ..sexp import Q
 
 MANIFEST = dict(
     text=('Theorems C07_quote_roundtrip / C07_fish_total / C07_zsh_total / C07_bash_outside_backslash_hazard (Props/C07.v): for '
-          'every shell, every string outside the shell\'s hazard class (empty for fish and zsh; bash: a backslash before '
-          '" ` $ \\ newline or the end; pwsh: the UTF-8 prefix E2 80) and every continuation of the script, the independent '
+          'every shell, every string outside the shell\'s hazard class (empty for bash, fish and zsh; pwsh: the UTF-8 prefix '
+          'E2 80) and every continuation of the script, the independent '
           'transcription of the shell\'s documented double-quote rule (Spec/ShellDQ.v) reads make_string_constant(s) back as '
           'exactly s and stops right after it -- nothing expanded, cut or swallowed. Proof: single-character replace chains act '
           'characterwise + generic induction over adjacent byte pairs + one closed vm_compute sweep of 256x257 pairs per shell '
-          'over the replace chains regenerated from src/{bash,fish,zsh,pwsh}.rs on every run. C07_refuted_bash_backslash and '
-          'C07_refuted_pwsh_smart_quote are the machine-checked witnesses of the two known defects. Per run: all strings of '
+          'over the replace chains regenerated from src/{bash,fish,zsh,pwsh}.rs on every run. C07_refuted_pwsh_smart_quote is '
+          'the machine-checked witness of the known pwsh defect; ex_C07_bash_backslash_regression keeps the witnesses of the '
+          'fixed bash defect. Per run: all strings of '
           'length <= 2 over the 94-character literal alphabet (top level and inside a word) and the 97-character description '
           'alphabet, plus random longer and non-ASCII ones, x 4 emitters: constants cut out of the real scripts are decoded by '
           'the extracted reader and compared with the grammar; the model constant must equal the emitted constant byte for '
@@ -37,8 +38,9 @@ PER_GRAMMAR = 48
 
 
 def bash_hazard(s):
-    """mirror of ShellDQ.hazard Bash, used only to ROUTE strings into separate grammars (the
-    classification itself uses the extracted predicate)"""
+    """the class of the FIXED finding C07-bash-backslash-unescaped (90236c3): a backslash before a double quote,
+    backtick, dollar, backslash, newline or the end.  Used only to ROUTE these former witnesses into grammars of
+    their own, so that they stay in the corpus; nothing is suppressed for them any more"""
     for i, c in enumerate(s):
         if c == '\\' and (i + 1 == len(s) or s[i + 1] in '"`$\\\n'):
             return True
